@@ -200,7 +200,10 @@ def rand_identity(rng, oversize_ok=True, ascii_only=False):
         lens = {o: rand_len(rng) for o in ids}
     if not oversize_ok:
         lens = {o: min(n, MAX_TRANSPORTABLE) for o, n in lens.items()}
-    return [[o, rand_value(rng, n, ascii_only)] for o, n in sorted(lens.items()) if n > 0]
+    # a few objects are configured with an EMPTY value (installed as '' / b''): they are not "configured non-empty objects" and must
+    # never be returned, neither as objects of length 0 nor as page filler
+    empties = {o for o in lens if rng.random() < 0.08}
+    return [[o, rand_value(rng, 0 if o in empties else n, ascii_only)] for o, n in sorted(lens.items()) if n > 0]
 
 
 def starts_for(pairs, rng, extra=(5, 7, 130)):
